@@ -348,6 +348,45 @@ fn run_inner2(rng: &mut Rng, style: usize, trace: &mut Vec<(usize, Vec<D3>)>) ->
             }
         }
     }
+    // C09 with a non-trivial analysis attached: every inserted term is still found by lookup (equal to its handle) and
+    // re-inserting it allocates nothing - an analysis changes which e-nodes are re-processed after a union
+    {
+        let cj = J::obj(vec![("log", J::arr_s(&log))]);
+        for (hd, txt) in &handles {
+            let re: RecExpr<LArith> = RecExpr::parse(txt).unwrap();
+            let r = guard(|| -> Result<(), (String, String)> {
+                let before = eg.progress().number_of_classes;
+                match lookup_rec_expr(&re, &eg) {
+                    None => return Err(("lookup-none-for-inserted-term".into(), format!("lookup_rec_expr({txt}) is None although the term was inserted (analysis attached)"))),
+                    Some(a) => {
+                        if !eg.eq(&a, hd) {
+                            return Err(("lookup-differs-from-handle".into(), format!("lookup_rec_expr({txt}) = {a:?} is not equal to the handle {hd:?}")));
+                        }
+                    }
+                }
+                let a = eg.add_expr(re.clone());
+                if eg.progress().number_of_classes != before {
+                    return Err(("known-term-created-class".into(), format!("re-inserting {txt} allocated a class (analysis attached)")));
+                }
+                if !eg.eq(&a, hd) {
+                    return Err(("known-term-wrong-invocation".into(), format!("re-inserting {txt} returned {a:?}, not equal to {hd:?}")));
+                }
+                Ok(())
+            });
+            out.inc("probes_with_analysis");
+            match r {
+                Ok(Ok(())) => {}
+                Ok(Err((sig, d))) => {
+                    out.fail(Fail::new("insertion-not-canonical", sig, d, cj));
+                    return out;
+                }
+                Err(p) => {
+                    out.fail(Fail::panic("panic", &p, &format!("probe of {txt}"), cj));
+                    return out;
+                }
+            }
+        }
+    }
     let calls = CALLS.with(|c| *c.borrow());
     out.add("make_calls", calls.0);
     out.add("merge_calls", calls.1);
